@@ -10,6 +10,7 @@ import signal
 import subprocess
 import sys
 import tempfile
+import threading
 import time
 
 VERIF = os.path.dirname(os.path.dirname(os.path.abspath(__file__)))
@@ -24,13 +25,17 @@ NCPU = os.cpu_count() or 4
 _scratch_root = None
 
 
+_root_lock = threading.Lock()
+
+
 def scratch_root():
     """One scratch directory per process, removed at exit."""
     global _scratch_root
-    if _scratch_root is None:
-        base = os.environ.get("VERIF_TMP", tempfile.gettempdir())
-        _scratch_root = tempfile.mkdtemp(prefix="verif-", dir=base)
-        atexit.register(_cleanup)
+    with _root_lock:
+        if _scratch_root is None:
+            base = os.environ.get("VERIF_TMP", tempfile.gettempdir())
+            _scratch_root = tempfile.mkdtemp(prefix="verif-", dir=base)
+            atexit.register(_cleanup)
     return _scratch_root
 
 
@@ -253,27 +258,39 @@ def parse_dot(path):
 # --------------------------------------------------------------------------
 # Go
 
+_setup_lock = threading.RLock()
+_compile_lock = threading.Lock()
+_compile_locks = {}     # output path -> lock (parts of one check build the same rig from several threads)
+_compile_done = {}      # (package, files, output, tags, race, go, linkflag) -> test binary
+_overlay_seq = [0]
+
+
 def repo_modfile():
     """Copies of /repo's go.mod/go.sum so that -mod=mod never rewrites /repo."""
     d = scratch("modfile")
     mf = os.path.join(d, "go.mod")
-    if not os.path.exists(mf):
-        shutil.copy(os.path.join(REPO, "go.mod"), mf)
-        shutil.copy(os.path.join(REPO, "go.sum"), os.path.join(d, "go.sum"))
+    with _setup_lock:
+        if not os.path.exists(mf):
+            shutil.copy(os.path.join(REPO, "go.sum"), os.path.join(d, "go.sum"))
+            shutil.copy(os.path.join(REPO, "go.mod"), mf + ".tmp")
+            os.replace(mf + ".tmp", mf)
     return mf
 
 
 def harness_copy():
     """Scratch copy of the external harness module, with /repo's go.sum."""
     d = os.path.join(scratch_root(), "harness")
-    if not os.path.exists(d):
-        shutil.copytree(HARNESS, d, ignore=shutil.ignore_patterns("inpkg"))
-        shutil.copy(os.path.join(REPO, "go.sum"), os.path.join(d, "go.sum"))
-        with open(os.path.join(d, "go.mod")) as fh:
-            gm = fh.read()
-        gm = gm.replace("=> /repo", "=> " + REPO)
-        with open(os.path.join(d, "go.mod"), "w") as fh:
-            fh.write(gm)
+    with _setup_lock:
+        if not os.path.exists(d):
+            t = d + ".tmp"
+            shutil.copytree(HARNESS, t, ignore=shutil.ignore_patterns("inpkg"))
+            shutil.copy(os.path.join(REPO, "go.sum"), os.path.join(t, "go.sum"))
+            with open(os.path.join(t, "go.mod")) as fh:
+                gm = fh.read()
+            gm = gm.replace("=> /repo", "=> " + REPO)
+            with open(os.path.join(t, "go.mod"), "w") as fh:
+                fh.write(gm)
+            os.rename(t, d)
     return d
 
 
@@ -287,16 +304,23 @@ def go_build(pkg, out_name, tags="verif", race=False, go=GO_DEFAULT, timeout=900
     d = harness_copy()
     race = want_race(race)
     out = os.path.join(scratch("bin"), out_name + ("-r" if race else ""))
-    cmd = [go, "build", "-tags", tags, "-o", out]
-    if linkflag:
-        cmd.append(LINKFLAGS)
-    if race:
-        cmd.append("-race")
-    cmd.append(pkg)
-    r = run(cmd, cwd=d, env=goenv(), timeout=timeout)
-    if r.rc != 0 or r.timed_out:
-        raise Inconclusive("go build %s failed:\n%s" % (pkg, r.out[-4000:]))
-    return out
+    key = ("build", pkg, out, tags, race, go, linkflag)
+    with _compile_lock:
+        lock = _compile_locks.setdefault(out, threading.Lock())
+    with lock:      # parts of one check may build the same driver from several threads
+        if key in _compile_done and os.path.exists(out):
+            return out
+        cmd = [go, "build", "-tags", tags, "-o", out]
+        if linkflag:
+            cmd.append(LINKFLAGS)
+        if race:
+            cmd.append("-race")
+        cmd.append(pkg)
+        r = run(cmd, cwd=d, env=goenv(), timeout=timeout)
+        if r.rc != 0 or r.timed_out:
+            raise Inconclusive("go build %s failed:\n%s" % (pkg, r.out[-4000:]))
+        _compile_done[key] = out
+        return out
 
 
 def go_test_inpkg(pkg_rel, files, run_regex, env=None, tags="verif", race=False, go=GO_DEFAULT,
@@ -308,10 +332,7 @@ def go_test_inpkg(pkg_rel, files, run_regex, env=None, tags="verif", race=False,
     ov = {"Replace": {}}
     for f in files:
         ov["Replace"][os.path.join(REPO, pkg_rel, os.path.basename(f))] = f
-    d = scratch("overlay")
-    ovf = os.path.join(d, "overlay-%s.json" % re.sub(r"\W", "_", pkg_rel + run_regex))
-    with open(ovf, "w") as fh:
-        json.dump(ov, fh)
+    ovf = _write_overlay(ov, "overlay-%s" % re.sub(r"\W", "_", pkg_rel + run_regex))
     cmd = [go, "test", "-modfile=" + repo_modfile(), "-overlay", ovf, "-vet=off", "-tags", tags,
            "-run", run_regex, "-timeout", "%ds" % max(60, int(timeout) - 20)]
     if count:
@@ -517,27 +538,44 @@ def simulate_behaviours(specdir, module, cfg, num, depth, seed, timeout=600, fil
     return r, behs
 
 
+def _write_overlay(ov, stem):
+    """A fresh overlay file per call, written completely before it gets its name."""
+    d = scratch("overlay")
+    with _compile_lock:
+        _overlay_seq[0] += 1
+        n = _overlay_seq[0]
+    ovf = os.path.join(d, "%s-%d.json" % (stem, n))
+    with open(ovf + ".tmp", "w") as fh:
+        json.dump(ov, fh)
+    os.replace(ovf + ".tmp", ovf)
+    return ovf
+
+
 def go_test_compile_inpkg(pkg_rel, files, out_name, tags="verif", race=False, go=GO_DEFAULT, linkflag=False, timeout=900):
     """`go test -c` of /repo/<pkg_rel> with harness files injected through -overlay; returns the test binary."""
     ov = {"Replace": {}}
     for f in files:
         ov["Replace"][os.path.join(REPO, pkg_rel, os.path.basename(f))] = f
     race = want_race(race)
-    d = scratch("overlay")
-    ovf = os.path.join(d, "overlay-c-%s.json" % re.sub(r"\W", "_", pkg_rel + out_name))
-    with open(ovf, "w") as fh:
-        json.dump(ov, fh)
     out = os.path.join(scratch("bin"), out_name)
-    cmd = [go, "test", "-c", "-o", out, "-modfile=" + repo_modfile(), "-overlay", ovf, "-vet=off", "-tags", tags]
-    if linkflag:
-        cmd.append(LINKFLAGS)
-    if race:
-        cmd.append("-race")
-    cmd.append("./" + pkg_rel)
-    r = run(cmd, cwd=REPO, env=goenv(), timeout=timeout)
-    if r.rc != 0 or r.timed_out or not os.path.exists(out):
-        raise Inconclusive("go test -c ./%s failed:\n%s" % (pkg_rel, r.out[-4000:]))
-    return out
+    key = (pkg_rel, tuple(files), out, tags, race, go, linkflag)
+    with _compile_lock:
+        lock = _compile_locks.setdefault(out, threading.Lock())
+    with lock:
+        if key in _compile_done and os.path.exists(out):
+            return out
+        ovf = _write_overlay(ov, "overlay-c-%s" % re.sub(r"\W", "_", pkg_rel + out_name))
+        cmd = [go, "test", "-c", "-o", out, "-modfile=" + repo_modfile(), "-overlay", ovf, "-vet=off", "-tags", tags]
+        if linkflag:
+            cmd.append(LINKFLAGS)
+        if race:
+            cmd.append("-race")
+        cmd.append("./" + pkg_rel)
+        r = run(cmd, cwd=REPO, env=goenv(), timeout=timeout)
+        if r.rc != 0 or r.timed_out or not os.path.exists(out):
+            raise Inconclusive("go test -c ./%s failed:\n%s" % (pkg_rel, r.out[-4000:]))
+        _compile_done[key] = out
+        return out
 
 
 def run_parallel(jobs, workers=None):
